@@ -89,6 +89,12 @@ CHECKS.update({
    text="Users create and move objects across the root boundary; after every single engine step everything outside both roots must be byte-identical and every engine-issued mutation must address (as resolved before the call) a path inside the root; the inside must equal the expected tree with move-out as deletion and move-in as creation; declined paths must stay exactly as each side's users left them.",
    note=E_NOTE + " KF-23 (upload onto a moved-out file) and KF-36 (children of a moved-in folder) are open findings, fenced off and replayed."),
 })
+CHECKS.update({
+ "C17": dict(engine="E-engine-harness", category="exploration", design_ref="2/C17",
+   technique="differential property-based testing under a virtual clock: the engine's entry selection is compared, inside the wrapped call with the clock frozen, with a reference choice computed from the statement's law; an end-to-end call-log invariant relates every engine mutation to the last event notification of that object; a bounded-step no-starvation scenario",
+   text="Ageing, priorities and clock advances are generated; every single sync step's pick must be None iff nothing is eligible and otherwise minimal in (priority, latest change) among the eligible entries; every provider mutation must come at least the ageing interval after the object's last event notification unless its priority is negative; with one file failing for ever, k healthy files must be propagated within 20k+50 sync steps.",
+   note=E_NOTE + " KF-37/38 (early propagation via set_aged / via the other side's flag) and KF-39 (livelock with prioritize and rmtree) are open findings, fenced off and replayed."),
+})
 NOT_YET = {}
 
 def main():
